@@ -143,6 +143,7 @@ macro_rules! real_struct {
         struct $name {
             id: u8, user_id: u8, first_last_name: u8, a: u8, x1: u8, user_2fa: u8, http_url: u8, _private: u8,
             a__b: u8, trailing_: u8, userName: u8, myHTTPServer: u8, URL: u8, x_y_z: u8, field1_name2: u8, i: u8,
+            r#type: u8, r#match_arm: u8,
             #[serde(rename = "re-named")]
             r: u8,
             #[serde(skip)]
@@ -159,7 +160,7 @@ macro_rules! real_enum {
         #[serde(rename_all = $rule)]
         enum $name {
             Active, InProgress, A, HTTPError, V2, Ok, MyHTTPServer, Snake_Case, lower, X_Y, ABC, A1B2, NotFound404,
-            IoError, x, UserID,
+            IoError, x, UserID, r#type, r#Match,
             #[serde(rename = "re-named")]
             R,
         }
@@ -167,7 +168,7 @@ macro_rules! real_enum {
             fn all() -> Vec<$name> {
                 use $name::*;
                 vec![Active, InProgress, A, HTTPError, V2, Ok, MyHTTPServer, Snake_Case, lower, X_Y, ABC, A1B2,
-                     NotFound404, IoError, x, UserID, R]
+                     NotFound404, IoError, x, UserID, r#type, r#Match, R]
             }
         }
     };
